@@ -477,7 +477,8 @@ PROPS.update({
                      "Foyer.Hyb.insAll_max",
                      "Foyer.Hyb.woi_stepCore", "Foyer.Hyb.woi_step", "Foyer.Hyb.woi_reads_truth",
                      "Foyer.Hyb.woe_stepCore", "Foyer.Hyb.woe_step", "Foyer.Hyb.woe_reads_truth",
-                     "Foyer.Hyb.rb_stepCore", "Foyer.Hyb.reopen_view", "Foyer.Hyb.woi_reads_truth_reopen"],
+                     "Foyer.Hyb.rb_stepCore", "Foyer.Hyb.reopen_view", "Foyer.Hyb.woi_reads_truth_reopen",
+                     "Foyer.Hyb.woe_reads_truth_reopen_partial"],
         "extra_modules": ["FoyerProofs.C01Woi", "FoyerProofs.C01Woe", "FoyerProofs.C01Reopen"],
         "monitor_props": ["C01"],
         "campaigns": {
@@ -519,7 +520,8 @@ PROPS.update({
         "theorems": ["Foyer.Hyb.close_persists_flushed", "Foyer.Hyb.close_drains_queue",
                      "Foyer.Hyb.close_without_flush_submits_nothing", "Foyer.Hyb.reopen_index_is_recovery",
                      "Foyer.Hyb.recovery_picks_latest", "Foyer.Hyb.recovery_complete", "Foyer.Hyb.rinv_restarted",
-                     "Foyer.Hyb.reopen_view", "Foyer.Hyb.woi_reads_truth_reopen"],
+                     "Foyer.Hyb.reopen_view", "Foyer.Hyb.woi_reads_truth_reopen",
+                     "Foyer.Hyb.woe_reads_truth_reopen_partial"],
         "extra_modules": ["FoyerProofs.C01Reopen"],
         "monitor_props": ["C15"],
         "campaigns": {
